@@ -50,15 +50,27 @@ Ltac inv_chk :=
          | H : match chk128 ?z with Some _ => _ | None => None end = Some _ |- _ =>
              let E := fresh "E" in destruct (chk128 z) eqn:E; [apply chk128_inv in E; subst|discriminate H]
          end.
-Ltac sound K := intros H; unfold K in *; cbv zeta in *; inv_chk; inversion H; subst; reflexivity.
-Ltac bounds := unfold small, px, py in *; cbn [fst snd] in *; nia.
-Ltac total := repeat (first [rewrite chk_some by bounds | rewrite chk128_some by bounds]); eexists; reflexivity.
+Lemma some_inj {A} (x y : A) : Some x = Some y -> x = y.
+Proof. intros H. inversion H. reflexivity. Qed.
+Ltac sound K G := intros H; unfold K in H; inv_chk; apply some_inj in H; rewrite <- H; unfold G; reflexivity.
+Lemma mul_in_i128 a b : Z.abs a <= 1073741824 -> Z.abs b <= 1073741824 ->
+  -170141183460469231731687303715884105728 <= a * b <= 170141183460469231731687303715884105727.
+Proof.
+  intros Ha Hb. assert (H : Z.abs (a * b) <= 1073741824 * 1073741824) by (rewrite Z.abs_mul; apply Z.mul_le_mono_nonneg; lia).
+  lia.
+Qed.
+Lemma mul_sign_in_i64 a b : -1 <= a <= 1 -> -1 <= b <= 1 -> -9223372036854775808 <= a * b <= 9223372036854775807.
+Proof.
+  intros Ha Hb. assert (H : Z.abs (a * b) <= 1 * 1) by (rewrite Z.abs_mul; apply Z.mul_le_mono_nonneg; lia). lia.
+Qed.
+Ltac bounds := unfold small, px, py in *; cbn [fst snd] in *; lia.
+Ltac total := repeat (first [rewrite chk_some by bounds | rewrite chk128_some by (apply mul_in_i128; bounds)]); eexists; reflexivity.
 
 (* ------------------------------------------------------------------ MidPoint: (p1.x + p2.x) / 2 *)
 Definition MidPoint_chk (p1 p2 : pt) : option pt :=
   do sx <- chk (px p1 + px p2); do sy <- chk (py p1 + py p2); Some (Z.quot sx 2, Z.quot sy 2).
 Lemma MidPoint_chk_sound p1 p2 r : MidPoint_chk p1 p2 = Some r -> r = MidPoint p1 p2.
-Proof. sound MidPoint_chk. Qed.
+Proof. sound MidPoint_chk MidPoint. Qed.
 Lemma MidPoint_chk_total p1 p2 : small p1 -> small p2 -> exists r, MidPoint_chk p1 p2 = Some r.
 Proof. intros [? ?] [? ?]. unfold MidPoint_chk. total. Qed.
 
@@ -70,7 +82,7 @@ Definition CrossProductSign_int128_chk (pt1 pt2 pt3 : pt) : option Z :=
   Some (if cd <? ab then 1 else if ab <? cd then (-1) else 0).
 Lemma CrossProductSign_int128_chk_sound p1 p2 p3 r :
   CrossProductSign_int128_chk p1 p2 p3 = Some r -> r = CrossProductSign_int128 p1 p2 p3.
-Proof. sound CrossProductSign_int128_chk. Qed.
+Proof. sound CrossProductSign_int128_chk CrossProductSign_int128. Qed.
 Lemma CrossProductSign_int128_chk_total p1 p2 p3 : small p1 -> small p2 -> small p3 ->
   exists r, CrossProductSign_int128_chk p1 p2 p3 = Some r.
 Proof. intros [? ?] [? ?] [? ?]. unfold CrossProductSign_int128_chk. total. Qed.
@@ -83,9 +95,9 @@ Definition CrossProductSign_portable_chk (pt1 pt2 pt3 : pt) : option Z :=
   do c <- chk (py pt2 - py pt1); do d <- chk (px pt3 - px pt2);
   do aa <- chk (Z.abs a); do ab_ <- chk (Z.abs b); do ac <- chk (Z.abs c); do ad <- chk (Z.abs d);
   do sab <- chk (TriSign a * TriSign b); do scd <- chk (TriSign c * TriSign d);
-  let ab := Multiply (wrap64 aa) (wrap64 ab_) in
-  let cd := Multiply (wrap64 ac) (wrap64 ad) in
-  Some (if sab =? scd then
+  Some (let ab := Multiply (wrap64 aa) (wrap64 ab_) in
+        let cd := Multiply (wrap64 ac) (wrap64 ad) in
+        if sab =? scd then
           (let k := fun (result : Z) => if 0 <? sab then result else Z.opp result in
            if u128_hi ab =? u128_hi cd then
              (if u128_lo ab =? u128_lo cd then 0 else
@@ -96,7 +108,7 @@ Definition CrossProductSign_portable_chk (pt1 pt2 pt3 : pt) : option Z :=
         else if scd <? sab then 1 else (-1)).
 Lemma CrossProductSign_portable_chk_sound p1 p2 p3 r :
   CrossProductSign_portable_chk p1 p2 p3 = Some r -> r = CrossProductSign_portable p1 p2 p3.
-Proof. sound CrossProductSign_portable_chk. Qed.
+Proof. sound CrossProductSign_portable_chk CrossProductSign_portable. Qed.
 Lemma TriSign_range x : -1 <= TriSign x <= 1.
 Proof. unfold TriSign, b2z. destruct (0 <? x), (x <? 0); lia. Qed.
 Lemma CrossProductSign_portable_chk_total p1 p2 p3 : small p1 -> small p2 -> small p3 ->
@@ -104,10 +116,8 @@ Lemma CrossProductSign_portable_chk_total p1 p2 p3 : small p1 -> small p2 -> sma
 Proof.
   intros [? ?] [? ?] [? ?]. unfold CrossProductSign_portable_chk.
   repeat (rewrite chk_some by bounds).
-  rewrite (chk_some (TriSign _ * TriSign _)).
-  2:{ pose proof (TriSign_range (px p2 - px p1)). pose proof (TriSign_range (py p3 - py p2)). nia. }
-  rewrite (chk_some (TriSign _ * TriSign _)).
-  2:{ pose proof (TriSign_range (py p2 - py p1)). pose proof (TriSign_range (px p3 - px p2)). nia. }
+  rewrite (chk_some (TriSign _ * TriSign _)) by (apply mul_sign_in_i64; apply TriSign_range).
+  rewrite (chk_some (TriSign _ * TriSign _)) by (apply mul_sign_in_i64; apply TriSign_range).
   eexists; reflexivity.
 Qed.
 
@@ -117,7 +127,7 @@ Definition IsCollinear_chk (pt1 sharedPt pt2 : pt) : option bool :=
   do c <- chk (py sharedPt - py pt1); do d <- chk (px pt2 - px sharedPt);
   do ab <- chk128 (a * b); do cd <- chk128 (c * d); Some (ab =? cd).
 Lemma IsCollinear_chk_sound p1 p2 p3 r : IsCollinear_chk p1 p2 p3 = Some r -> r = IsCollinear p1 p2 p3.
-Proof. intros H; unfold IsCollinear_chk in *; inv_chk; inversion H; subst; reflexivity. Qed.
+Proof. intros H; unfold IsCollinear_chk in H; inv_chk; apply some_inj in H; rewrite <- H; unfold IsCollinear, ProductsAreEqual_int128; reflexivity. Qed.
 Lemma IsCollinear_chk_total p1 p2 p3 : small p1 -> small p2 -> small p3 -> exists r, IsCollinear_chk p1 p2 p3 = Some r.
 Proof. intros [? ?] [? ?] [? ?]. unfold IsCollinear_chk. total. Qed.
 
@@ -128,7 +138,7 @@ Definition CrossProduct_chk (pt1 pt2 pt3 : pt) : option float :=
   do c <- chk (py pt2 - py pt1); do d <- chk (px pt3 - px pt2);
   Some ((Z2F a * Z2F b) - (Z2F c * Z2F d))%float.
 Lemma CrossProduct_chk_sound p1 p2 p3 r : CrossProduct_chk p1 p2 p3 = Some r -> r = CrossProduct p1 p2 p3.
-Proof. sound CrossProduct_chk. Qed.
+Proof. sound CrossProduct_chk CrossProduct. Qed.
 Lemma CrossProduct_chk_total p1 p2 p3 : small p1 -> small p2 -> small p3 -> exists r, CrossProduct_chk p1 p2 p3 = Some r.
 Proof. intros [? ?] [? ?] [? ?]. unfold CrossProduct_chk. total. Qed.
 
@@ -137,7 +147,7 @@ Definition DotProduct_chk (pt1 pt2 pt3 : pt) : option float :=
   do c <- chk (py pt2 - py pt1); do d <- chk (py pt3 - py pt2);
   Some ((Z2F a * Z2F b) + (Z2F c * Z2F d))%float.
 Lemma DotProduct_chk_sound p1 p2 p3 r : DotProduct_chk p1 p2 p3 = Some r -> r = DotProduct p1 p2 p3.
-Proof. sound DotProduct_chk. Qed.
+Proof. sound DotProduct_chk DotProduct. Qed.
 Lemma DotProduct_chk_total p1 p2 p3 : small p1 -> small p2 -> small p3 -> exists r, DotProduct_chk p1 p2 p3 = Some r.
 Proof. intros [? ?] [? ?] [? ?]. unfold DotProduct_chk. total. Qed.
 
@@ -150,7 +160,7 @@ Definition PerpendicDistFromLineSqrd_chk (pt_ line1 line2 : pt) : option float :
         else (Sqr_d ((a * d) - (c * b)) / ((c * c) + (d * d)))%float).
 Lemma PerpendicDistFromLineSqrd_chk_sound p1 p2 p3 r :
   PerpendicDistFromLineSqrd_chk p1 p2 p3 = Some r -> r = PerpendicDistFromLineSqrd p1 p2 p3.
-Proof. sound PerpendicDistFromLineSqrd_chk. Qed.
+Proof. sound PerpendicDistFromLineSqrd_chk PerpendicDistFromLineSqrd. Qed.
 Lemma PerpendicDistFromLineSqrd_chk_total p1 p2 p3 : small p1 -> small p2 -> small p3 ->
   exists r, PerpendicDistFromLineSqrd_chk p1 p2 p3 = Some r.
 Proof. intros [? ?] [? ?] [? ?]. unfold PerpendicDistFromLineSqrd_chk. total. Qed.
